@@ -80,9 +80,21 @@ Definition rejected (c : config) (k : kwargs) : option err :=
       else match hidden c k with None => Some EValue | Some _ => None end
   end.
 
-Definition echo_on (c : config) (k : kwargs) : bool :=
+(** "Full hiding suppresses echo".  The docstring of [run] gives [hide=True] and
+    [hide='both'] as the same setting; the property is therefore read
+    ([strict = true]) as: a hide value that names BOTH streams -- True or 'both' --
+    switches echo off (dry-run apart).  The code tests [opts["hide"] is True] only:
+    that literal reading ([strict = false]) is what it implements (F-C15c). *)
+Definition fully_hidden (v : oval) : bool :=
+  match v with
+  | OBool true => true
+  | OStr s => String.eqb s "both"
+  | _ => false
+  end.
+
+Definition echo_on_r (strict : bool) (c : config) (k : kwargs) : bool :=
   if is_True (want c k Dry) then true
-  else if is_True (want c k Hide) then false
+  else if (if strict then fully_hidden (want c k Hide) else is_True (want c k Hide)) then false
   else truthy (want c k Echo).
 
 Definition fill (fmt : oval) (command : string) : string :=
@@ -128,7 +140,7 @@ Definition err_opt_eqb (a b : option err) : bool :=
   | _, _ => false
   end.
 
-Definition spec_ok_opts (c : config) (parent : env) (command : string) (k : kwargs)
+Definition spec_ok_opts_r (strict : bool) (c : config) (parent : env) (command : string) (k : kwargs)
            (obs : outcome) : bool :=
   match rejected c k with
   | Some e =>
@@ -143,9 +155,9 @@ Definition spec_ok_opts (c : config) (parent : env) (command : string) (k : kwar
                             | _ => oval_eqb (r_opts r o) (want c k o)
                             end) all_opts
           && oval_eqb (r_timeout r) (want_timeout c k)
-          && Bool.eqb (truthy (r_opts r Echo)) (echo_on c k)
+          && Bool.eqb (truthy (r_opts r Echo)) (echo_on_r strict c k)
           && opt_str_eqb (o_echo obs)
-                         (if echo_on c k then Some (fill (want c k EchoFormat) command) else None)
+                         (if echo_on_r strict c k then Some (fill (want c k EchoFormat) command) else None)
           && oval_eqb (r_opts r Hide)
                       (OList (match hidden c k with Some l => l | None => [] end))
           && oval_eqb (r_out r) (or_default (want c k OutStream) sys_stdout)
@@ -216,19 +228,19 @@ Definition sudo_wrapped (cc : ctxcfg) (user_kw : option oval) (k : kwargs) (pref
 
 (** judge the calls observed for a statement inside the blocks [fs];
     returns (acceptable, calls not yet consumed, the exception that has to propagate) *)
-Fixpoint judge_stmt (cc : ctxcfg) (fs : list block) (s : stmt) (obs : list call)
+Fixpoint judge_stmt_r (strict : bool) (cc : ctxcfg) (fs : list block) (s : stmt) (obs : list call)
          {struct s} : bool * list call * option xkind :=
   match s with
   | SRun cmd k fails =>
       match obs with
-      | c :: rest => (spec_ok_opts (cc_run cc) (cc_parent cc) (composed fs cmd) k c, rest,
+      | c :: rest => (spec_ok_opts_r strict (cc_run cc) (cc_parent cc) (composed fs cmd) k c, rest,
                       expected_raise (cc_run cc) k fails)
       | [] => (false, [], None)
       end
   | SSudo cmd u k fails =>
       match obs with
       | c :: rest =>
-          (spec_ok_opts (cc_run cc) (cc_parent cc) (sudo_wrapped cc u k (composed fs cmd))
+          (spec_ok_opts_r strict (cc_run cc) (cc_parent cc) (sudo_wrapped cc u k (composed fs cmd))
                         (spec_sudo_kwargs (cc_run cc) k) c,
            rest, expected_raise (cc_run cc) (spec_sudo_kwargs (cc_run cc) k) fails)
       | [] => (false, [], None)
@@ -240,7 +252,7 @@ Fixpoint judge_stmt (cc : ctxcfg) (fs : list block) (s : stmt) (obs : list call)
            match l with
            | [] => (true, obs, None)
            | x :: l' =>
-               let '(ok, rest, r) := judge_stmt cc (fs ++ [b]) x obs in
+               let '(ok, rest, r) := judge_stmt_r strict cc (fs ++ [b]) x obs in
                match r with
                | Some _ => (ok, rest, r)
                | None => let '(ok', rest', r') := go l' rest in (ok && ok', rest', r')
@@ -249,15 +261,15 @@ Fixpoint judge_stmt (cc : ctxcfg) (fs : list block) (s : stmt) (obs : list call)
       (ok, rest, match b with BTry => None | _ => r end)
   end.
 
-Fixpoint judge_list (cc : ctxcfg) (fs : list block) (l : list stmt) (obs : list call)
+Fixpoint judge_list_r (strict : bool) (cc : ctxcfg) (fs : list block) (l : list stmt) (obs : list call)
   : bool * list call * option xkind :=
   match l with
   | [] => (true, obs, None)
   | x :: l' =>
-      let '(ok, rest, r) := judge_stmt cc fs x obs in
+      let '(ok, rest, r) := judge_stmt_r strict cc fs x obs in
       match r with
       | Some _ => (ok, rest, r)
-      | None => let '(ok', rest', r') := judge_list cc fs l' rest in (ok && ok', rest', r')
+      | None => let '(ok', rest', r') := judge_list_r strict cc fs l' rest in (ok && ok', rest', r')
       end
   end.
 
@@ -266,8 +278,29 @@ Definition cstate_eqb (a b : cstate) : bool :=
 
 (** [calls]: what was observed of each run / sudo call, in order;
     [final]: the two stacks after the program; [raised]: what came out of it. *)
-Definition spec_ok_ctx (cc : ctxcfg) (prog : list stmt)
+Definition spec_ok_ctx_r (strict : bool) (cc : ctxcfg) (prog : list stmt)
            (calls : list call) (final : cstate) (raised : option xkind) : bool :=
-  let '(ok, rest, r) := judge_list cc [] prog calls in
+  let '(ok, rest, r) := judge_list_r strict cc [] prog calls in
   ok && match rest with [] => true | _ => false end
   && oxkind_eqb r raised && cstate_eqb final (mkC [] []).
+
+(** * The specification proper: the strict reading *)
+Definition echo_on := echo_on_r true.
+Definition spec_ok_opts := spec_ok_opts_r true.
+Definition spec_ok_ctx := spec_ok_ctx_r true.
+
+(** the two readings agree on this configuration and these keyword arguments *)
+Definition echo_readings_agree (c : config) (k : kwargs) : bool :=
+  Bool.eqb (echo_on_r true c k) (echo_on_r false c k).
+
+(** ... on every call of a program *)
+Fixpoint readings_agree_stmt (c : config) (s : stmt) {struct s} : bool :=
+  match s with
+  | SRun _ k _ | SSudo _ _ k _ => echo_readings_agree c k
+  | SRaise _ => true
+  | SBlock _ body =>
+      (fix go (l : list stmt) : bool :=
+         match l with [] => true | x :: l' => readings_agree_stmt c x && go l' end) body
+  end.
+Definition readings_agree_prog (cc : ctxcfg) (prog : list stmt) : bool :=
+  forallb (readings_agree_stmt (cc_run cc)) prog.
